@@ -254,6 +254,23 @@ def check_builder(g, res, rid, stats):
             res.violation(rid, "%s/%s" % (name, k), "%s: DefaultBuilder arm of %s (%s): %s" % (
                 name, k, " ".join(sym_name(t, s) for s in p["rhs"]), "; ".join(problems[:3])), g.entry.get("parser_file_rel"))
     res.ok(rid, name, g.entry.get("parser_file_rel"), "%d production arms" % n_arms)
+    # the result is the TOP of the result stack, unwrapped as the start symbol's nonterminal
+    im = g.impl("Builder", "DefaultBuilder")
+    gr = [x for x in (im or {}).get("items", []) if x.get("ident") == "get_result"]
+    if gr:
+        scr, garms = gen.match_arms(gr[0]["body"])
+        sflat = gen.flat(scr).replace(" ", "") if scr else ""
+        start_sym = t["start_index"] - len(t["terminals"])
+        root = t["nonterminals"][start_sym]["name"] if 0 <= start_sym < len(t["nonterminals"]) else None
+        pats = [gen.flat(pt).replace(" ", "") for pt, _v in (garms or []) if not (len(pt) == 1 and is_i(pt[0], "_"))]
+        if sflat != "self.res_stack.pop().unwrap()":
+            res.violation(rid, "%s/get_result" % name, "%s: get_result takes `%s`, expected the top of the result stack "
+                          "(self.res_stack.pop().unwrap())" % (name, sflat[:80]), g.entry.get("parser_file_rel"))
+        elif root and pats and pats != ["Symbol::NonTerminal(NonTerminal::%s(r))" % root]:
+            res.violation(rid, "%s/get_result" % name, "%s: get_result unwraps %s, the start symbol is %s" % (name, pats[:2], root),
+                          g.entry.get("parser_file_rel"))
+        else:
+            stats["arms"] += 1
 
 
 # ---------------------------------------------------------------- generated actions
